@@ -27,6 +27,8 @@ type World struct {
 	// Huge: contract formation sometimes commits to such a file
 	Sparse map[types.Hash256]*ref.SparseFile
 	Huge   bool
+	// StrayProofs: ephemeral v2 siacoin parents sometimes carry meaningless Merkle proofs (valid blocks all the same)
+	StrayProofs bool
 }
 
 // NewWorld registers the pool's standard locks.
@@ -791,7 +793,16 @@ func (b *Builder) v2Inputs(picked []scCand) []types.V2SiacoinInput {
 	var ins []types.V2SiacoinInput
 	for _, p := range picked {
 		sp, _ := Satisfy(p.lock.Policy, types.Hash256{}, b.CS.Index.Height, b.Median)
-		ins = append(ins, types.V2SiacoinInput{Parent: p.el.Copy(), SatisfiedPolicy: sp})
+		parent := p.el.Copy()
+		if b.W.StrayProofs && parent.StateElement.LeafIndex == types.UnassignedLeafIndex && rapid.IntRange(0, 2).Draw(b.T, "strayProof") == 0 {
+			// an ephemeral parent has no accumulator position; a proof attached to it is neither validated nor signed,
+			// so a (sloppy or hostile) sender may leave anything there and the block stays valid
+			for k := rapid.IntRange(1, 3).Draw(b.T, "strayLen"); k > 0; k-- {
+				parent.StateElement.MerkleProof = append(parent.StateElement.MerkleProof, types.Hash256{0xEE, byte(k)})
+			}
+			b.label("ephemeral-parent-with-stray-proof")
+		}
+		ins = append(ins, types.V2SiacoinInput{Parent: parent, SatisfiedPolicy: sp})
 		b.expectSpentSC(p.el.ID)
 	}
 	return ins
